@@ -12,7 +12,7 @@ VARIABLE l
 
 TraceRecs == ndJsonDeserialize("trace.ndjson")
 Decls == ndJsonDeserialize("decls.ndjson")
-Props == {"C05", "C12", "C13", "C14", "C15", "DRIFT"}
+Props == {"C05", "C06", "C12", "C13", "C14", "C15", "DRIFT"}
 B(x) == IF x THEN 1 ELSE 0
 
 Scn(rec) == [decl |-> rec.decl, popts |-> rec.popts, handler |-> "none", cmdHandler |-> FALSE, execErr |-> FALSE, env |-> rec.env, argv |-> <<>>, completion |-> E, hasPrelude |-> FALSE, prelude |-> <<>>]
@@ -79,13 +79,16 @@ StepCall(rec, acc, k) ==
                 same == /\ co.errKind = (IF s2.err.t = "foreign" THEN co.errKind ELSE s2.err.t)
                         /\ (s2.err.t = "foreign" => co.errKind \in {"foreign", "foreign:exec", "foreign:handler"})
                         /\ s2.err.t = "none" => (ValuesEq(s2, co) /\ co.pos = s2.pos /\ co.retargs = s2.retargs)
-            IN [acc EXCEPT !.s = s2, !.grey = @ \/ s2.grey, !.okArgs = @ /\ (s2.grey \/ same), !.dead = s2.err.t # "none" \/ ~same]
+            IN [acc EXCEPT !.s = s2, !.grey = @ \/ s2.grey, !.okArgs = @ /\ (s2.grey \/ same), !.dead = s2.err.t # "none" \/ ~same,
+                           \* C06 across sources: a required option counts as supplied however it got its value (INI read, as-defaults read,
+                           \* environment, default tag, an earlier parse) - ErrRequired exactly when the specification says so
+                           !.okReq = @ /\ (s2.grey \/ ((s2.err.t = "ErrRequired") <=> (co.errKind = "ErrRequired")))]
        [] c.op = "write" ->
             LET lines == WriteIni(s, SeqToSet(c.iniOpts)) IN
             [acc EXCEPT !.drift = @ \/ lines # co.lines, !.writes = @ + 1]
        [] OTHER -> acc
 
-Acc0(rec) == [s |-> SInit(rec), ok14 |-> TRUE, okArgs |-> TRUE, drift |-> FALSE, grey |-> FALSE, panics |-> 0, iniCalls |-> 0, errCalls |-> 0,
+Acc0(rec) == [s |-> SInit(rec), ok14 |-> TRUE, okArgs |-> TRUE, okReq |-> TRUE, drift |-> FALSE, grey |-> FALSE, panics |-> 0, iniCalls |-> 0, errCalls |-> 0,
               writes |-> 0, multi |-> FALSE, dead |-> FALSE]
 
 RunSession(rec) == FoldLeft(LAMBDA acc, k : StepCall(rec, acc, k), Acc0(rec), [k \in 1..Len(rec.calls) |-> k])
@@ -121,6 +124,7 @@ Judge(rec) ==
   IN [C14 |-> ~crashed /\ r.ok14,
       C05 |-> (tagged("sources") /\ ~crashed /\ ~r.grey) => (r.ok14 /\ r.okArgs),
       C13 |-> (tagged("equiv") /\ ~crashed /\ ~r.grey) => (r.ok14 /\ r.okArgs),
+      C06 |-> (~crashed /\ ~r.grey) => r.okReq,
       C12 |-> ~crashed /\ J12(rec, d),
       C15 |-> rec.distinctObs = 1,
       DRIFT |-> crashed \/ r.grey \/ (~r.drift /\ r.okArgs /\ r.ok14),
